@@ -4,7 +4,7 @@ import ast
 
 from ..program import AnalysisError, walk_local, dotted
 from ..analysis import Spec, src, const_value
-from ..rules import (first_rest, flow_canon, canon, string_template, substitute_locals, inside, before, GWF, EXC, mpt, need_func, stores_to, raise_class,
+from ..rules import (locals_bound_to, first_rest, flow_canon, canon, string_template, substitute_locals, inside, before, GWF, EXC, mpt, need_func, stores_to, raise_class,
                      parent_map, kw, is_const, strip_wrappers, eval_atom,
                      UNKNOWN)
 from . import common
@@ -723,14 +723,21 @@ def validation_gates(prog, an, rep):
     ccb = an.cfg(cb)
     pushes = an.target_nodes(cb, Spec.func(GU + '.push'), depth=0)
     rep.floor('C01 pushes in create_branch', len(pushes), 1)
-    creates = an.gate_nodes(cb, Spec.method('create', r'^new_branch$'),
-                            depth=0)
+    # the branch being created: the local(s) built from the requested name
+    nb = locals_bound_to(cb, pred=lambda t: t.startswith('branch_factory(')
+                         and t.endswith(', %s.settings.branch)' %
+                                        cb.params[0]))
+    if not nb:
+        raise AnalysisError('anchor-missing the new branch object in ' +
+                            cb.qname)
+    creates = an.gate_nodes(cb, Spec.method(
+        'create', r'^(%s)$' % '|'.join(nb)), depth=0)
     for t in pushes:
         call = [x for x in ast.walk(t.ast) if isinstance(x, ast.Call) and
                 an.call_matches(cb, x, Spec.func(GU + '.push'))][0]
         br = kw(call, 'branches') or (call.args[1] if len(call.args) > 1
                                       else None)
-        rep.check(br is not None and src(br) == '[new_branch]',
+        rep.check(br is not None and src(br) in ['[%s]' % x for x in nb],
                   'C01.ARG.validation', cb.qname + ': pushes exactly the '
                   'new branch', cb.where(t), 'create_branch pushes %s' %
                   (src(br) if br is not None else 'everything'))
